@@ -1340,16 +1340,16 @@ class DateTime(datetime.datetime, Date):
         cls,
         date: datetime.date,
         time: datetime.time,
-        tzinfo: datetime.tzinfo | None = None,
+        tzinfo: datetime.tzinfo | None | Literal[True] = True,
     ) -> Self:
-        if tzinfo is None:
+        if tzinfo is True:
             dt = datetime.datetime.combine(date, time)
         else:
-            # An explicit tzinfo replaces the one carried by ``time``,
+            # An explicit tzinfo (or None) replaces the one carried by ``time``,
             # as it does for the native class.
             dt = datetime.datetime.combine(date, time, tzinfo)
 
-        return cls.instance(dt, tz=tzinfo)
+        return cls.instance(dt, tz=None)
 
     def astimezone(self, tz: datetime.tzinfo | None = None) -> Self:
         # Convert a native copy: tzinfo.fromutc() implementations (dateutil, pytz)
